@@ -141,6 +141,43 @@ fn family_stream(f: u8, k: u64) -> Option<(Vec<u8>, Vec<(u32, usize)>)> {
     }
 }
 
+/// the case a raw fuzz input denotes
+pub fn raw_case(data: &[u8]) -> Case {
+    let mode = data[0] & 3;
+    let chunk = [0usize, 1, 3, 4096][((data[0] >> 2) & 3) as usize];
+    let body = &data[1..];
+    let stmts = vec![(0u32, 0usize), (1, 1), (0x0101_0101, 2), (7, 9)];
+    let bytes = match mode {
+        0 => {
+            // framed commands: split the body at 0xff markers? no - take the body as ONE stream of packets
+            let mut v = valid_handshake();
+            // a prepare first so that executes can hit a live statement
+            frame_into(&mut v, &com_simple(COM_STMT_PREPARE, b"p"), 0);
+            frame_into(&mut v, &com_simple(COM_STMT_PREPARE, b"p"), 0);
+            v.extend_from_slice(body);
+            v
+        }
+        1 => {
+            // the body is the payload of one packet
+            let mut v = valid_handshake();
+            frame_into(&mut v, &com_simple(COM_STMT_PREPARE, b"p"), 0);
+            frame_into(&mut v, &com_simple(COM_STMT_PREPARE, b"p"), 0);
+            frame_into(&mut v, body, 0);
+            frame_into(&mut v, &[COM_PING], 0);
+            v
+        }
+        2 => {
+            // the body is the handshake response payload
+            let mut v = Vec::new();
+            frame_into(&mut v, body, 1);
+            frame_into(&mut v, &[COM_PING], 0);
+            v
+        }
+        _ => body.to_vec(),
+    };
+    Case::Stream { bytes, stmts, chunk }
+}
+
 pub struct Verdict {
     pub key: String,
     pub msg: String,
@@ -274,6 +311,13 @@ impl Prop for C20 {
     }
     fn cases(&self, tier: Tier) -> u64 {
         tier.pick(120_000, 3_000_000)
+    }
+    fn fuzz_plan(&self, tier: Tier) -> Vec<(&'static str, u64)> {
+        if tier == Tier::Thorough {
+            vec![("raw", 400_000), ("prop", 250_000)]
+        } else {
+            vec![]
+        }
     }
     fn choice_len(&self) -> usize {
         2048
